@@ -280,17 +280,20 @@ pub fn on_runner_done(id: BuildId, termination: &Termination) {
 // /showIncludes filtering, thread, channel) stays real.
 
 struct Pending {
+    ticket: u64,
     cmdline: String,
     result: Option<Option<CommandResult>>, // Some(None) = aborted
 }
 
 struct Commands {
     scripted: bool,
+    next_ticket: u64,
     pending: Vec<Pending>,
 }
 
 static COMMANDS: Mutex<Commands> = Mutex::new(Commands {
     scripted: false,
+    next_ticket: 0,
     pending: Vec::new(),
 });
 static COMMANDS_CV: Condvar = Condvar::new();
@@ -299,7 +302,6 @@ static COMMANDS_CV: Condvar = Condvar::new();
 pub fn set_scripted(on: bool) {
     let mut c = COMMANDS.lock().unwrap();
     c.scripted = on;
-    c.pending.clear();
 }
 
 /// Called at the top of `process::run_command` on the task thread.
@@ -308,30 +310,34 @@ pub fn run_command(cmdline: &str) -> Option<anyhow::Result<CommandResult>> {
     if !c.scripted {
         return None;
     }
+    c.next_ticket += 1;
+    let ticket = c.next_ticket;
     c.pending.push(Pending {
+        ticket,
         cmdline: cmdline.to_owned(),
         result: None,
     });
     COMMANDS_CV.notify_all();
     loop {
-        if let Some(pos) = c
-            .pending
-            .iter()
-            .position(|p| p.cmdline == cmdline && p.result.is_some())
-        {
-            let p = c.pending.remove(pos);
-            return Some(match p.result.unwrap() {
-                Some(r) => Ok(r),
-                None => Err(anyhow::anyhow!("verif: invocation abandoned")),
-            });
+        match c.pending.iter().position(|p| p.ticket == ticket) {
+            None => return Some(Err(anyhow::anyhow!("verif: command dropped"))),
+            Some(pos) if c.pending[pos].result.is_some() => {
+                let p = c.pending.remove(pos);
+                return Some(match p.result.unwrap() {
+                    Some(r) => Ok(r),
+                    None => Err(anyhow::anyhow!("verif: invocation abandoned")),
+                });
+            }
+            Some(_) => {}
         }
         c = COMMANDS_CV.wait(c).unwrap();
     }
 }
 
-/// Blocks until `n` commands are registered and unreleased; returns their
-/// command lines in registration order.
-pub fn wait_for_commands(n: usize) -> Vec<String> {
+/// Blocks until `n` commands are registered and unreleased, or the timeout
+/// expires; returns the command lines registered by then.
+pub fn wait_for_commands(n: usize, timeout: std::time::Duration) -> Vec<String> {
+    let deadline = std::time::Instant::now() + timeout;
     let mut c = COMMANDS.lock().unwrap();
     loop {
         let waiting: Vec<String> = c
@@ -340,10 +346,11 @@ pub fn wait_for_commands(n: usize) -> Vec<String> {
             .filter(|p| p.result.is_none())
             .map(|p| p.cmdline.clone())
             .collect();
-        if waiting.len() >= n {
+        let now = std::time::Instant::now();
+        if waiting.len() >= n || now >= deadline {
             return waiting;
         }
-        c = COMMANDS_CV.wait(c).unwrap();
+        c = COMMANDS_CV.wait_timeout(c, deadline - now).unwrap().0;
     }
 }
 
